@@ -6,6 +6,7 @@ mod coqw;
 mod enumgen;
 mod enumprops;
 mod gen;
+mod lexprops;
 mod prng;
 mod ser;
 mod termprops;
@@ -54,6 +55,8 @@ fn main() {
         "C10" => enumprops::run_c10(&o),
         "C12" => enumprops::run_c12(&o),
         "C15" => enumprops::run_c15(&o),
+        "C02" => lexprops::run_c02(&o),
+        "C05" => lexprops::run_c05(&o),
         _ => { eprintln!("unknown property {prop}"); std::process::exit(2); }
     };
     rep.write(&o.outdir).expect("write report");
